@@ -51,6 +51,16 @@ def gate(agg):
     return [f"monitor counter {k} is zero" for k in need if c.get(k, 0) == 0]
 
 
+def _solver_used(sd, i):
+    """The candidate limit is only consulted when the reduced-STG solver runs: not for fixed-point nodes and
+    not for non-minimal nodes with an empty NFVS."""
+    d = sd.node_data(i)
+    nf = d.get("percolated_nfvs")
+    if nf is not None and len(nf) == 0 and d["expanded"] and sd.dag.out_degree(i) > 0:
+        return False
+    return True
+
+
 def run_case(case):
     from .. import bb
     from ..instrument import FaultState, install_fault_injector, InjectedSolverFailure
@@ -180,9 +190,9 @@ def run_case(case):
                         res.v(f"resume-returned-false:{op}", f"resumed {op} without limit returned {r2}", ctx=ctx)
                     elif by_space_dump(sd, ref, bb) != tdump:
                         res.v(f"resume-differs:{op}:size", f"{op} stopped at size_limit={L} and resumed differs from an uninterrupted run ({len(sd)} vs {nfull} nodes)", ctx=ctx)
-                if op in ("bfs", "dfs") and pre is None:
+                if op in ("bfs", "dfs"):
                     for lv in range(0, twin.depth() + 2):
-                        ctx = {"rules": rules, "op": op, "level_or_stack_limit": lv}
+                        ctx = {"rules": rules, "prefix": pre, "op": op, "level_or_stack_limit": lv}
                         sd = fresh(pre)
                         res.evals += 1
                         res.c("level_limits_enumerated")
@@ -248,6 +258,46 @@ def run_case(case):
                     ea = sorted(ref.attractor_of(ref.state_of(dict(x))) or -1 for x in tseeds[i])
                     if ga != ea:
                         res.v("seeds-under-tight-config-differ-semantically", f"node {i}: {s2[i]} vs {tseeds[i]}", ctx=ctx)
+        # raw candidate path (greedy and simulation off): the solver's own count decides. With N raw candidates,
+        # a limit <= N must raise the limit error (and cache nothing), a limit > N must return the same list as
+        # an unlimited twin; after relaxing the limit the repeat must equal the twin. Checked on a fully expanded
+        # diagram and on an unexpanded root (stubs hold the large candidate sets).
+        for shape in ("full", "stub"):
+            def mk(cfg=None):
+                d = fresh(cfg=cfg)
+                if shape == "full":
+                    d.expand_bfs()
+                return d
+
+            tw2 = mk()
+            tcand = [sorted(sorted(x.items()) for x in W(lambda i=i: tw2.node_attractor_candidates(i, compute=True, greedy_asp_minification=False, simulation_minification=False), nodes=len(tw2))) for i in tw2.node_ids()]
+            for lim in (1, 2, 3, 4):
+                ctx = {"rules": rules, "attractor_candidates_limit": lim, "greedy_asp_minification": False, "simulation_minification": False, "diagram": shape}
+                sd = mk(cfg={"attractor_candidates_limit": lim})
+                res.evals += 1
+                raised_nodes = []
+                for i in sd.node_ids():
+                    n_raw = len(tcand[i])
+                    space_full = len(sd.node_data(i)["space"]) == ref.n
+                    try:
+                        c1 = W(lambda i=i: sd.node_attractor_candidates(i, compute=True, greedy_asp_minification=False, simulation_minification=False), nodes=len(sd))
+                        if n_raw >= lim and not space_full and n_raw > 0 and _solver_used(sd, i):
+                            res.v("limit-error-not-raised:cand", f"node {i}: {n_raw} raw candidates, attractor_candidates_limit={lim}, but no error was raised and {len(c1)} candidates were returned", ctx=ctx)
+                        elif sorted(sorted(x.items()) for x in c1) != tcand[i]:
+                            res.v("candidates-differ-under-limit:cand", f"node {i}: candidate list under a non-binding limit differs from the unlimited one", ctx=ctx)
+                    except RuntimeError:
+                        raised_nodes.append(i)
+                        res.c("candidate_limit_errors")
+                        res.c("operations_interrupted")
+                        if n_raw < lim:
+                            res.v("limit-error-raised-early:cand", f"node {i}: only {n_raw} raw candidates but attractor_candidates_limit={lim} raised", ctx=ctx)
+                invariants(sd, "cand:candidate-limit", ctx)
+                sd.config["attractor_candidates_limit"] = 100_000
+                res.c("resumes_compared")
+                for i in raised_nodes:
+                    c2 = sorted(sorted(x.items()) for x in W(lambda i=i: sd.node_attractor_candidates(i, compute=True, greedy_asp_minification=False, simulation_minification=False), nodes=len(sd)))
+                    if c2 != tcand[i]:
+                        res.v("resume-differs:cand:candidate-limit", f"node {i}: raw candidates after an attractor_candidates_limit={lim} error and relaxing the limit differ from an uninterrupted run", ctx=ctx)
         # ============================================================ (c) solver failure at every call index
         for op in OPS + ["seeds"]:
             def base():
